@@ -9,6 +9,7 @@ import (
 	"encoding/json"
 	"fmt"
 	"testing"
+	"time"
 
 	"github.com/arloliu/go-secs/v2/secs2"
 
@@ -34,8 +35,12 @@ func TestCheck(t *testing.T) {
 			replay(c)
 			return
 		}
+		t0 := time.Now()
 		partCtor(c)
+		c.Set("max_part_a_s", time.Since(t0).Seconds())
+		t0 = time.Now()
 		partErrored(c)
+		c.Set("max_part_b_s", time.Since(t0).Seconds())
 		partWire(c)
 	})
 }
@@ -77,7 +82,7 @@ func partCtor(c *vfw.Ctx) {
 	c.Rule(fmt.Sprintf("part A (constructors): %d constructors = {NewIntItem, NewUintItem, NewFloatItem} x byteSize {1,2,4,8,-1,0,3,16} + NewBinaryItem + NewBooleanItem + shortcuts I1..I8,U1..U8,F4,F8,B,BOOLEAN; "+
 		"argument alphabet of %d symbols = every boundary value {0,+-1, 127..-129, 255/256, 32767..-32769, 65535/65536, +-2^31 and neighbours, 2^32-1/2^32, +-(2^53-1..2^53+1), Min/MaxInt64 and neighbours, MaxInt64+1, MaxUint64-1/MaxUint64} in every Go integer type that holds it, "+
 		"float64/float32 specials (+-0, +-MaxFloat32 and the next float64s beyond, MaxFloat32+half ulp, +-1e39, +-MaxFloat64, +-Inf, NaN, 2^53+2, subnormals), %d strings (decimal/hex/octal/binary, signs, spaces, underscores, overflowing, float and NaN/Inf spellings, non-numeric), bool, nil, struct{}, []any, map, *int, nil *int, uintptr, named int and named []int, "+
-		"nil/empty/1..3-element slices of every element type; ALL argument lists of length 0, 1 and 2 for valid byte sizes (length 2 over the %d-symbol thinned alphabet for invalid byte sizes); thorough adds ALL lists of length 3 over the thinned alphabet. non-trivial = at least one argument",
+		"nil/empty/1..3-element slices of every element type; ALL argument lists of length 0, 1 and 2 for valid byte sizes (length 2 over the %d-symbol thinned alphabet for invalid byte sizes); thorough adds ALL lists of length 3 over the thinned alphabet + every string and float64 symbol (valid byte sizes and byteSize 3). non-trivial = at least one argument",
 		len(env.ctors), len(env.syms), len(numericStrings), nThin))
 	c.Set("alphabet_symbols", len(env.syms))
 	c.Set("constructors", len(env.ctors))
@@ -107,7 +112,7 @@ func partCtor(c *vfw.Ctx) {
 		if v.Key != "" {
 			c.Violate(v.Key, fmt.Sprintf("%s(%s): %s", cd.Key(), descArgs(args), v.Msg),
 				replayCase{Part: "ctor", Ctor: cd.Name, Size: cd.Size, Args: args})
-		} else if c.WantSample() && len(idx) == 2 && (v.Outcome == "clamped" || n%97 == 0) {
+		} else if c.WantSample() && n%20011 == 7 {
 			c.Sample(map[string]any{"ctor": cd.Key(), "args": args, "outcome": v.Outcome, "sml": secsSML(cd, vals)})
 		}
 	}
@@ -142,10 +147,11 @@ func partCtor(c *vfw.Ctx) {
 	// length 3 over the thinned alphabet
 	var thin []int
 	for i, s := range env.syms {
-		if s.Thin {
+		if s.Thin || s.A.T == "string" || s.A.T == "float64" {
 			thin = append(thin, i)
 		}
 	}
+	c.Set("length3_alphabet", len(thin))
 	for _, si := range thin {
 		for _, sj := range thin {
 			for _, sk := range thin {
